@@ -275,39 +275,39 @@ Proof. exact polyval_lipschitz. Qed.
 Example C01_Poly0_hypotheses_hold :
   safe (map of_bits [4607632778762754458; 4604750475001237340]%Z) e_Poly0 /\
   exact_safe (map of_bits [4607182418800017408; 4611686018427387904]%Z) e_Poly0.
-Proof. split; [apply safeb_sound|apply exact_safeb_sound]; vm_compute; reflexivity. Qed.
+Proof. split; [apply safe1_sound|apply exact_safeb_sound]; vm_compute; reflexivity. Qed.
 Example C01_Poly1_hypotheses_hold :
   safe (map of_bits [4607632778762754458; 13835733595226269286; 4604750475001237340]%Z) e_Poly1 /\
   exact_safe (map of_bits [4607182418800017408; 4611686018427387904; 4611686018427387904]%Z) e_Poly1.
-Proof. split; [apply safeb_sound|apply exact_safeb_sound]; vm_compute; reflexivity. Qed.
+Proof. split; [apply safe1_sound|apply exact_safeb_sound]; vm_compute; reflexivity. Qed.
 Example C01_Poly2_hypotheses_hold :
   safe (map of_bits [4607632778762754458; 13835733595226269286; 4604480259023595110; 4604750475001237340]%Z) e_Poly2 /\
   exact_safe (map of_bits [4607182418800017408; 4611686018427387904; 4613937818241073152; 4611686018427387904]%Z) e_Poly2.
-Proof. split; [apply safeb_sound|apply exact_safeb_sound]; vm_compute; reflexivity. Qed.
+Proof. split; [apply safe1_sound|apply exact_safeb_sound]; vm_compute; reflexivity. Qed.
 Example C01_Poly3_hypotheses_hold :
   safe (map of_bits [4607632778762754458; 13835733595226269286; 4604480259023595110; 4615964438073389875; 4604750475001237340]%Z) e_Poly3 /\
   exact_safe (map of_bits [4607182418800017408; 4611686018427387904; 4613937818241073152; 4616189618054758400; 4611686018427387904]%Z) e_Poly3.
-Proof. split; [apply safeb_sound|apply exact_safeb_sound]; vm_compute; reflexivity. Qed.
+Proof. split; [apply safe1_sound|apply exact_safeb_sound]; vm_compute; reflexivity. Qed.
 Example C01_Poly4_hypotheses_hold :
   safe (map of_bits [4607632778762754458; 13835733595226269286; 4604480259023595110; 4615964438073389875; 13825150136101948621; 4604750475001237340]%Z) e_Poly4 /\
   exact_safe (map of_bits [4607182418800017408; 4611686018427387904; 4613937818241073152; 4616189618054758400; 4617315517961601024; 4611686018427387904]%Z) e_Poly4.
-Proof. split; [apply safeb_sound|apply exact_safeb_sound]; vm_compute; reflexivity. Qed.
+Proof. split; [apply safe1_sound|apply exact_safeb_sound]; vm_compute; reflexivity. Qed.
 Example C01_Poly5_hypotheses_hold :
   safe (map of_bits [4607632778762754458; 13835733595226269286; 4604480259023595110; 4615964438073389875; 13825150136101948621; 4563407430421976187; 4604750475001237340]%Z) e_Poly5 /\
   exact_safe (map of_bits [4607182418800017408; 4611686018427387904; 4613937818241073152; 4616189618054758400; 4617315517961601024; 4618441417868443648; 4611686018427387904]%Z) e_Poly5.
-Proof. split; [apply safeb_sound|apply exact_safeb_sound]; vm_compute; reflexivity. Qed.
+Proof. split; [apply safe1_sound|apply exact_safeb_sound]; vm_compute; reflexivity. Qed.
 Example C01_Poly6_hypotheses_hold :
   safe (map of_bits [4607632778762754458; 13835733595226269286; 4604480259023595110; 4615964438073389875; 13825150136101948621; 4563407430421976187; 4635168068359474381; 4604750475001237340]%Z) e_Poly6 /\
   exact_safe (map of_bits [4607182418800017408; 4611686018427387904; 4613937818241073152; 4616189618054758400; 4617315517961601024; 4618441417868443648; 4619567317775286272; 4611686018427387904]%Z) e_Poly6.
-Proof. split; [apply safeb_sound|apply exact_safeb_sound]; vm_compute; reflexivity. Qed.
+Proof. split; [apply safe1_sound|apply exact_safeb_sound]; vm_compute; reflexivity. Qed.
 Example C01_Poly7_hypotheses_hold :
   safe (map of_bits [4607632778762754458; 13835733595226269286; 4604480259023595110; 4615964438073389875; 13825150136101948621; 4563407430421976187; 4635168068359474381; 13841250504769798144; 4604750475001237340]%Z) e_Poly7 /\
   exact_safe (map of_bits [4607182418800017408; 4611686018427387904; 4613937818241073152; 4616189618054758400; 4617315517961601024; 4618441417868443648; 4619567317775286272; 4620693217682128896; 4611686018427387904]%Z) e_Poly7.
-Proof. split; [apply safeb_sound|apply exact_safeb_sound]; vm_compute; reflexivity. Qed.
+Proof. split; [apply safe1_sound|apply exact_safeb_sound]; vm_compute; reflexivity. Qed.
 Example C01_Poly8_hypotheses_hold :
   safe (map of_bits [4607632778762754458; 13835733595226269286; 4604480259023595110; 4615964438073389875; 13825150136101948621; 4563407430421976187; 4635168068359474381; 13841250504769798144; 4612136378390124954; 4604750475001237340]%Z) e_Poly8 /\
   exact_safe (map of_bits [4607182418800017408; 4611686018427387904; 4613937818241073152; 4616189618054758400; 4617315517961601024; 4618441417868443648; 4619567317775286272; 4620693217682128896; 4621256167635550208; 4611686018427387904]%Z) e_Poly8.
-Proof. split; [apply safeb_sound|apply exact_safeb_sound]; vm_compute; reflexivity. Qed.
+Proof. split; [apply safe1_sound|apply exact_safeb_sound]; vm_compute; reflexivity. Qed.
 
 Example C01_example :
   map to_bits (evals FOps0 (map of_bits [4607182418800017408; 4611686018427387904; 4613937818241073152; 4616189618054758400; 4611686018427387904]%Z) k_Poly3__evaluate)
